@@ -82,7 +82,7 @@ Definition i2c_parse (mem : list Z) : i2c_res :=
           I2C_Res (sum256 (firstn 20 all) =? nthz 20 all) true
                   (Some (mk_i2c (i_version f) (i_channel f) (i_speed f) (i_pitch f) (i_roll f) (Some a)))
         end
-      else I2C_Res false false (Some f)                  (* nothing happens: the callback is never called *)
+      else I2C_Res false true (Some f)                   (* unknown version (F14c repaired): not valid, update finished *)
     else I2C_Res false true None
   end.
 
